@@ -10,15 +10,15 @@ Is(e) == l <= Len(Rec) /\ Rec[l].e = e
 Adv == l' = l + 1
 TInit == Init /\ l = 1 /\ want = [domain |-> "none", value |-> "none"]
 TReset == /\ Is("Reset") /\ Adv /\ want' = [domain |-> Ev.domain, value |-> Ev.value]
-          /\ alive' = TRUE /\ hist' = <<>> /\ lastValid' = FALSE /\ bad' = {}
+          /\ alive' = TRUE /\ serving' = TRUE /\ hist' = <<>> /\ lastValid' = FALSE /\ bad' = {}
 TTls == /\ Is("Tls") /\ Adv
         /\ bad' = JudgeTls(Ev.offer, Ev.res, want) \cup (IF Ev.validation THEN Chk("C17_NextValidServed", Ev.res.completed) ELSE {})
-        /\ UNCHANGED <<alive, hist, lastValid, want>>
-THostile == /\ Is("Hostile") /\ Adv /\ hist' = Append(hist, Ev.kind) /\ bad' = {} /\ UNCHANGED <<alive, lastValid, want>>
+        /\ UNCHANGED <<alive, serving, hist, lastValid, want>>
+THostile == /\ Is("Hostile") /\ Adv /\ hist' = Append(hist, Ev.kind) /\ bad' = {} /\ UNCHANGED <<alive, serving, lastValid, want>>
 TProbe == /\ Is("Alive") /\ Adv
           /\ alive' = Ev.alive
           /\ bad' = Chk("C17_Alive", Ev.alive)
-          /\ UNCHANGED <<hist, lastValid, want>>
+          /\ UNCHANGED <<serving, hist, lastValid, want>>
 TNext == TReset \/ TTls \/ THostile \/ TProbe
 Report == (bad' \cap Enforce # {}) => PrintT(<<"BAD", bad' \cap Enforce, l>>)
 TSpec == TInit /\ [][TNext /\ Report]_tvars
